@@ -71,6 +71,8 @@ class CMAESDesigner(vza.PartiallySerializableDesigner):
     )
     self._cma_es_jax = cma_jax.CMA_ES_JAX(
         param_size=self._num_params, **cma_kwargs)
+    # Holds the (features, label) pairs of the completed trials of a partially
+    # evaluated population. It is part of the dumped state.
     self._trial_population = queue.Queue(
         maxsize=self._cma_es_jax.hyper_parameters.pop_size)
 
@@ -82,17 +84,24 @@ class CMAESDesigner(vza.PartiallySerializableDesigner):
     # Keep inserting completed trials into population. If population is full,
     # a CMA-ES update and queue clear are triggered.
     while completed_trials:
-      self._trial_population.put(completed_trials.pop())
+      features, labels = self._converter.to_xy([completed_trials.pop()])
+      self._trial_population.put((features[0], labels[0, 0]))
 
       if self._trial_population.full():
         # Once full, make a full CMA-ES update.
-        features, labels = self._converter.to_xy(
-            list(self._trial_population.queue))
+        features, labels = self._buffered_xy()
         # CMA-ES expects fitness to be shape (pop_size,) and solutions of shape
         # (pop_size, num_params).
         self._cma_es_jax.tell(
-            fitness=jnp.array(labels[:, 0]), solutions=jnp.array(features))
+            fitness=jnp.array(labels), solutions=jnp.array(features))
         self._trial_population.queue.clear()
+
+  def _buffered_xy(self) -> tuple[np.ndarray, np.ndarray]:
+    """Returns (N, num_params) features and (N,) labels of the buffer."""
+    buffered = list(self._trial_population.queue)
+    features = np.array([f for f, _ in buffered], dtype=np.float64)
+    labels = np.array([l for _, l in buffered], dtype=np.float64)
+    return features.reshape([len(buffered), self._num_params]), labels
 
   def suggest(self,
               count: Optional[int] = None) -> Sequence[vz.TrialSuggestion]:
@@ -118,10 +127,22 @@ class CMAESDesigner(vza.PartiallySerializableDesigner):
     cma_state = json.loads(
         metadata.ns('cma')['state'], object_hook=json_utils.numpy_hook)
     self._cma_es_jax.load_state(cma_state)
+    # Trials of the partially evaluated population. States dumped before the
+    # buffer was saved restore an empty buffer.
+    self._trial_population.queue.clear()
+    buffer = metadata.ns('cma').get('buffer')
+    if buffer is not None:
+      buffer = json.loads(buffer, object_hook=json_utils.numpy_hook)
+      for features, label in zip(buffer['features'], buffer['labels']):
+        self._trial_population.put((features, label))
 
   def dump(self) -> vz.Metadata:
     cma_state = self._cma_es_jax.save_state()
     metadata = vz.Metadata()
     metadata.ns('cma')['state'] = json.dumps(
         cma_state, cls=json_utils.NumpyEncoder)
+    features, labels = self._buffered_xy()
+    metadata.ns('cma')['buffer'] = json.dumps(
+        {'features': features, 'labels': labels}, cls=json_utils.NumpyEncoder
+    )
     return metadata
